@@ -2,30 +2,60 @@
 import os
 from .bcommon import *
 
-def extras(tier, seed):
+def extras(tier, seed, patch_evidence=True):
     """Specification growth beyond the listed properties (BuilderExtraTrace.tla): never a verdict."""
     import json
     trace = os.path.join(BUILD, "c12_extra.ndjson")
     vh(["drive-builder-extra", "--n", "150" if tier == "quick" else "3000", "--seed", str(seed), "--out", trace])
     n, bad, dt = tlc_trace("BuilderExtraTrace.tla", "BuilderExtraTrace.cfg", trace, "c12_extra")
+    verdicts = []
     if bad:
         ev = read_trace(trace)
-        for idx, code in bad[:5]:
-            log("EXTRA-OBSERVATION (not a property verdict): %s rejected by BuilderExtraTrace: %s" % (ev[idx - 1].get("what"), json.dumps(ev[idx - 1])[:300]))
+        shown = 0
+        for idx, code in bad:
+            e = ev[idx - 1]
+            # the two sentences of C12 that hold for EVERY Builder call: no panic, and a selection that designates
+            # something that exists - select_function_by_name is a Builder call like any other
+            if e.get("what") == "select_by_name" and code in (5, 17):
+                verdicts.append(("builder:select_function_by_name:%s" % ("panic" if code == 5 else "selection"), {"component": "builder", "input": {"extra": "select_function_by_name", "name": e.get("name"), "pre": e.get("pre")},
+                                 "observed": {"res": e.get("res"), "post": e.get("post"), "functions": len(e["module"][0]["functions"]) if e.get("module") else None},
+                                 "expected": "Builder!SelectionValid after the call; no panic", "spec_ref": "BuilderExtraTrace (code 17 / 5)"}))
+            elif shown < 5:
+                shown += 1
+                log("EXTRA-OBSERVATION (not a property verdict): %s rejected by BuilderExtraTrace: %s" % (e.get("what"), json.dumps(e)[:300]))
+    if not patch_evidence:
+        return verdicts
     path = os.path.join(EVIDENCE, "C12.json")
     e = json.load(open(path))
     e["coverage"]["extra_behaviours"] = {"spec": "spec/BuilderExtraTrace.tla", "behaviours": ["select_function_by_name", "find_return_block_indices", "insert_types_global_values", "dedup_insert_type", "version/set_version"],
-                                         "events_validated": n, "rejected": len(bad), "note": "beyond the listed properties; reported, never a verdict"}
+                                         "events_validated": n, "rejected": len(bad), "note": "beyond the listed properties; reported, never a verdict - except that select_function_by_name, being a Builder call, falls under C12's 'no call panics' and 'the selection always designates an existing function and block or nothing'"}
+    e["violations"] = e.get("violations", 0) + len({k for k, _ in verdicts})
     json.dump(e, open(path, "w"), indent=1)
+    return verdicts
 
 
 def run_check(tier, seed, replay=None):
     q = tier == "quick"
+    if replay:
+        import json
+        if "extra" in json.load(open(replay)).get("input", {}):
+            # the witness is a sentence about select_function_by_name: re-run that driver and judge it alone
+            rep = Report("C12")
+            for k, r in extras(tier, seed, patch_evidence=False):
+                rep.violation(k, r)
+            return rep.finish()
+        return _run(tier, seed, replay, q)
     rc = _run(tier, seed, replay, q)
     try:
-        extras(tier, seed)
+        verdicts = extras(tier, seed)
     except ToolError as e:
         log("extras skipped: %s" % str(e)[:200])
+        return rc
+    if verdicts:
+        rep = Report("C12")
+        for k, r in verdicts:
+            rep.violation(k, r)
+        rc = max(rc, rep.finish())
     return rc
 
 
